@@ -1,7 +1,8 @@
+//! Model self-check: spec functions vs Rust's primitive integers (exit 2 on disagreement).
 fn main() {
-    refmodel::silence_panics();
+    refmodel::engine::silence_panics();
     match refmodel::prim::selfcheck(cfg!(debug_assertions)) {
-        Ok((t, s)) => println!("self-check ok: {} transitions in {:.2}s", t, s),
+        Ok((t, s)) => println!("model self-check ok: {} transitions in {:.2}s (debug_assertions={})", t, s, cfg!(debug_assertions)),
         Err(e) => {
             println!("{}", e);
             std::process::exit(2)
